@@ -1389,6 +1389,13 @@ func (s *Server) Connect(ctx context.Context, t Transport, opts *ServerSessionOp
 	}
 
 	s.opts.Logger.Info("server connecting")
+	// A transport that pre-validates incoming requests must do so against this
+	// server's method table, which may include custom methods.
+	if mt, ok := t.(interface {
+		setReceivingMethodInfos(func() map[string]methodInfo)
+	}); ok {
+		mt.setReceivingMethodInfos(s.receivingMethodInfos)
+	}
 	ss, err := connect(ctx, t, s, state, onClose, s.opts.Logger)
 	if err != nil {
 		s.opts.Logger.Error("server connect error", "error", err)
